@@ -95,16 +95,20 @@ Fixpoint spec_flags_from (ends : list nat) (off : nat) (ws : list str) : list bo
 Definition spec_flags (pats : list pat) (ws : list str) : list bool :=
   spec_flags_from (pat_ends pats (concat ws)) 0 ws.
 
-(* ends of event terminators LF LF, CR CR, CRLF CRLF (an event of an event stream
-   is complete when the empty line after it is complete) *)
-Fixpoint event_ends_from (i : nat) (p3 p2 p1 : N) (s : str) : list nat :=
+(* where an event of an event stream is complete: an empty line, i.e. two consecutive ends of
+   line, each of which is LF, CR or CRLF in any mixture (HTML Living Standard 9.2.5).  Position
+   = index of the byte at which a parser can know it: an LF after an LF; a CR after an LF or a
+   CR (a parser that takes CR as an end of line at once); the LF of a CRLF that follows an end
+   of line (a parser that waits to see whether LF follows CR) *)
+Fixpoint event_ends_from (i : nat) (p2 p1 : N) (s : str) : list nat :=
   match s with
   | [] => []
-  | c :: r => (if ((p1 =? 10) && (c =? 10)) || ((p1 =? 13) && (c =? 13)) ||
-                  ((p3 =? 13) && (p2 =? 10) && (p1 =? 13) && (c =? 10)) then [i] else []) ++
-              event_ends_from (S i) p2 p1 c r
+  | c :: r => (if ((p1 =? 10) && (c =? 10)) ||
+                  ((c =? 13) && ((p1 =? 10) || (p1 =? 13))) ||
+                  ((p1 =? 13) && (c =? 10) && ((p2 =? 10) || (p2 =? 13))) then [i] else []) ++
+              event_ends_from (S i) p1 c r
   end.
-Definition event_ends (s : str) : list nat := event_ends_from 0 0 0 0 s.
+Definition event_ends (s : str) : list nat := event_ends_from 0 0 0 s.
 Fixpoint implb_list (x y : list bool) : bool :=
   match x, y with
   | a :: x', c :: y' => implb a c && implb_list x' y'
